@@ -78,7 +78,9 @@ struct C06 : public Driver {
             { unsigned m = (unsigned)g.below(12); if (m == 0) { sc.method = ""; sc.rootName = "html"; } else if (m == 1) sc.method = "html"; else if (m == 2) sc.method = "text"; else if (m == 3) { sc.method = ""; } }   // output method: xml mostly; html, text, and the switch to html after the first element
             sc.dfVariant = (int)g.below(3); if (g.chance(1, 2)) sc.on.insert("fmtnum-df"); if (g.chance(1, 2)) sc.on.insert("sort-gate"); if (g.chance(1, 4)) sc.on.insert("bignum-alpha");
             { static const std::vector<std::string> langs = { "de", "de", "fr", "en" }; static const std::vector<std::string> cases = { "", "upper-first", "lower-first" }; sc.sortLang = g.pick(langs); sc.sortCase = g.pick(cases); }
-            sc.useImport = g.chance(1, 3); sc.useInclude = g.chance(1, 4); sc.docFn = g.chance(1, 3); sc.stripSpace = g.chance(1, 4);
+            sc.useImport = g.chance(1, 3); sc.useInclude = g.chance(1, 4); sc.docFn = g.chance(1, 3); sc.stripSpace = g.chance(1, 3);
+            if (sc.stripSpace && g.chance(1, 2)) { static const std::vector<std::string> sets = { "doc sec", "a b c", "item p", "doc a item", "sec c d p1:a" }; sc.stripNames = g.pick(sets); }      // named elements: the answer depends on the parent's name
+            if (g.chance(1, 4)) sc.indentAmount = (int)g.below(6);
             static const std::vector<std::string> encs = { "UTF-8", "UTF-8", "UTF-16", "ISO-8859-1", "US-ASCII" }; sc.encoding = g.pick(encs);
             static const std::vector<std::string> orders = { "doc", "rk", "rev" }; sc.order = g.pick(orders);
             if (i > 0) { sc.abortPlace = (int)g.below(3); sc.abortKind = g.pick(aborts); const GenDoc& d = gd[g.below(3)]; sc.abortNode = d.ids[g.below(std::min<size_t>(d.ids.size(), 12))]; }
